@@ -14,19 +14,19 @@ use std::sync::{Arc, Condvar, Mutex};
 use std::time::{Duration, Instant};
 
 #[derive(Default)]
-struct Gate {
+pub struct Gate {
     open: Mutex<bool>,
     cv: Condvar,
     reached: AtomicBool,
 }
 
 impl Gate {
-    fn new() -> Arc<Gate> {
+    pub fn new() -> Arc<Gate> {
         Arc::new(Gate::default())
     }
     /// called by the gated thread: note arrival, wait until opened (bounded, so that the
     /// scenario itself can never hang the harness)
-    fn pass(&self) {
+    pub fn pass(&self) {
         self.reached.store(true, Ordering::SeqCst);
         let mut g = self.open.lock().unwrap();
         let start = Instant::now();
@@ -42,21 +42,21 @@ impl Gate {
     }
     /// open after a short delay, from another thread: the event that triggers the release is
     /// emitted just BEFORE the racing step (the notify), which gets a head start
-    fn open_later(self: &Arc<Self>, ms: u64) {
+    pub fn open_later(self: &Arc<Self>, ms: u64) {
         let g = self.clone();
         std::thread::spawn(move || {
             std::thread::sleep(Duration::from_millis(ms));
             g.open();
         });
     }
-    fn open(&self) {
+    pub fn open(&self) {
         if std::env::var("PDBH_DEBUG").is_ok() {
             eprintln!("gate opened by tid {}", tid());
         }
         *self.open.lock().unwrap() = true;
         self.cv.notify_all();
     }
-    fn wait_reached(&self, secs: u64) -> bool {
+    pub fn wait_reached(&self, secs: u64) -> bool {
         let start = Instant::now();
         while !self.reached.load(Ordering::SeqCst) {
             if start.elapsed() > Duration::from_secs(secs) {
